@@ -27,6 +27,7 @@ fn harness(name: &str, p: &Value) -> (Arc<util::Mk>, Box<dyn FnMut(&ds::RunResul
         "c07_window" => (c07::mk_window(p), Box::new(c07::judge_window)),
         "c08_callers" => (c08::mk_callers(p), Box::new(c08::judge_callers)),
         "c15_lifecycle" => (c15::mk_lifecycle(p), Box::new(c15::judge_lifecycle)),
+        "c13_removal" => (c13l::mk_removal(p), Box::new(c13l::judge_removal)),
         _ => {
             eprintln!("unknown harness {name}");
             std::process::exit(2)
